@@ -20,6 +20,7 @@ import (
 	"net/url"
 	fpath "path"
 	"regexp"
+	"sort"
 	"strings"
 
 	"github.com/go-openapi/runtime/logger"
@@ -456,8 +457,11 @@ func (d *defaultRouteBuilder) AddRoute(method, path string, operation *spec.Oper
 
 	d.debugLogf("operation: %#v", *operation)
 	if handler, ok := d.api.HandlerFor(method, strings.TrimPrefix(path, bp)); ok {
-		consumes := d.analyzer.ConsumesFor(operation)
-		produces := d.analyzer.ProducesFor(operation)
+		// the analyzer returns the media types as the keys of a map, i.e. in a random order:
+		// put them back in the order in which the description declares them, since that order
+		// breaks ties in content negotiation.
+		consumes := inDeclaredOrder(d.analyzer.ConsumesFor(operation), operation.Consumes, d.spec.Spec().Consumes)
+		produces := inDeclaredOrder(d.analyzer.ProducesFor(operation), operation.Produces, d.spec.Spec().Produces)
 		parameters := d.analyzer.ParamsFor(method, strings.TrimPrefix(path, bp))
 
 		// add API defaults if not part of the spec
@@ -488,6 +492,33 @@ func (d *defaultRouteBuilder) AddRoute(method, path string, operation *spec.Oper
 		})
 		d.records[mn] = append(d.records[mn], record)
 	}
+}
+
+// inDeclaredOrder returns the elements of mediaTypes ordered as they first appear in the declared lists
+// (operation level first, then API level); elements that appear in neither follow in sorted order.
+func inDeclaredOrder(mediaTypes []string, declared ...[]string) []string {
+	if len(mediaTypes) < 2 { //nolint:mnd
+		return mediaTypes
+	}
+	pending := make(map[string]struct{}, len(mediaTypes))
+	for _, mt := range mediaTypes {
+		pending[mt] = struct{}{}
+	}
+	result := make([]string, 0, len(mediaTypes))
+	for _, list := range declared {
+		for _, mt := range list {
+			if _, ok := pending[mt]; ok {
+				result = append(result, mt)
+				delete(pending, mt)
+			}
+		}
+	}
+	rest := make([]string, 0, len(pending))
+	for mt := range pending {
+		rest = append(rest, mt)
+	}
+	sort.Strings(rest)
+	return append(result, rest...)
 }
 
 func (d *defaultRouteBuilder) buildAuthenticators(operation *spec.Operation) RouteAuthenticators {
